@@ -100,20 +100,32 @@ def statement_seq(draw, *, arity: int, mode: str, max_len: int = 12, min_len: in
     return out
 
 
-def needs(statements):
-    """(max IRI occurrences, max non-string datatype occurrences) in one statement."""
+def _all_datatypes(t, out):
+    if t[0] == "lit" and t[3]:
+        out.append(t[3])
+    elif t[0] == "triple":
+        for x in t[1:]:
+            _all_datatypes(x, out)
+    return out
+
+
+def needs(statements, count_string=False):
+    """(max IRI occurrences, max [non-string] datatype occurrences) in one statement."""
     ki = kd = 0
     for stt in statements:
         i = sum(len(iris_of(t)) for t in stt)
-        d = sum(len(datatypes_of(t)) for t in stt)
+        if count_string:
+            d = sum(len(_all_datatypes(t, [])) for t in stt)
+        else:
+            d = sum(len(datatypes_of(t)) for t in stt)
         ki, kd = max(ki, i), max(kd, d)
     return ki, kd
 
 
 @st.composite
-def preset_for(draw, statements, extra_iris: int = 0, allow_zero_prefix: bool = True):
+def preset_for(draw, statements, extra_iris: int = 0, allow_zero_prefix: bool = True, count_string: bool = False):
     """LookupPreset in the C01 domain: every enabled table can hold one statement's entries."""
-    ki, kd = needs(statements)
+    ki, kd = needs(statements, count_string)
     ki = max(ki, extra_iris, 1)
     names = draw(st.sampled_from(sorted({max(8, ki), max(8, ki) + 1, 8, 9, 16, 4000, 4096} - set(range(max(8, ki))))))
     pchoices = sorted({ki, ki + 1, ki + 2, 8, 150, 4096} - set(range(ki)))
